@@ -215,7 +215,25 @@ def ev_types(case, rec):
     rec.sample(case)
 
 
-SUBCHECKS = [Sub('inverse', gen, ev, chunk=2, floor=1000, envs=8), Sub('types', gen_types, ev_types, chunk=1, floor=100, envs=2)]
+# --- two threads solving DIFFERENT inverse problems on DIFFERENT ellipsoids at the same time ----------
+from gpmc import threads as _thr
+import numpy as _tnp
+import geodepy.constants as _tgc
+import geodepy.convert as _tgv
+import geodepy.geodesy as _tgg
+import geodepy.angles as _tga
+T_CALLS = {
+    'grs80': lambda: (lambda: _tgg.vincinv(-37.95103342, 144.42486789, -37.65282114, 143.92649553)),
+    'ans_antimeridian': lambda: (lambda: _tgg.vincinv(10.0, 179.5, -12.0, -179.5, _tgc.ans)),
+    'intl_long': lambda: (lambda: _tgg.vincinv(-30.0, 0.0, 40.0, 120.0, _tgc.intl24)),
+    'near_antipodal': lambda: (lambda: _tgg.vincinv(0.0, 0.0, 0.5, 179.7)),
+    'coincident': lambda: (lambda: _tgg.vincinv(12.0, 12.0, 12.0, 12.0)),
+}
+_tg, _te = _thr.make(T_CALLS, ['geodepy/geodesy.py'], 'geodesy:vincinv:threads', quick=['grs80', 'ans_antimeridian', 'intl_long'],
+                     triple=('grs80', 'intl_long', 'coincident'))
+
+
+SUBCHECKS = [Sub('inverse', gen, ev, chunk=2, floor=1000, envs=8), Sub('types', gen_types, ev_types, chunk=1, floor=100, envs=2), Sub('threads', _tg, _te, chunk=1, floor=3, poison=False)]
 
 
 def bounds(tier, seed):
